@@ -7,6 +7,7 @@ rnd, log = sys.argv[1], sys.argv[2]
 head = subprocess.run(['git','-C','/repo','rev-parse','--short','HEAD'],capture_output=True,text=True).stdout.strip()
 origin = {
  '8': "written by a fresh sub-agent (eighth round: only the property text and its own scratch worktree of /repo; asked for (a) two cooperating sites that are each harmless alone, (b) a multi-step sequence of calls in one process or directory, or (c) a fault / unusual object at one particular moment; nothing from /verif)",
+ '10': "written by a fresh sub-agent (tenth round, a final generalisation sample: only the property text and its own scratch worktree of /repo, an unconstrained prompt asking for the promise and mechanism least likely to be watched; nothing from /verif)",
  '9': "written by a fresh sub-agent (ninth round; only the property text and its own scratch worktree of /repo; nothing from /verif)",
 }
 for l in open(log):
